@@ -18,7 +18,8 @@ class C03(UtfCheck):
             'bytes in all 4-tuples; valid text of every width mix cut at every unit and with one unit deleted / duplicated / '
             'replaced; boundary scalars and non-scalars in every position; surrogate-boundary strings of length <= 3; '
             'UTF-32 boundary values incl. 0x400000.. (the in-band error bit) and 0xFFFFFFFF; result sizes around the '
-            'short-buffer limit (15/16/17 units) and long inputs; seeded random garbage. expected = reference transcoding '
+            'short-buffer limit (15/16/17 units) and long inputs; block-wise shapes (a malformed unit / a wide character / a Latin-1 '
+            'high byte at every offset 0..39 of 40 units of ASCII, forms ending at and just past multiples of 8, whole blocks); seeded random garbage. expected = reference transcoding '
             '(Tokens.spec_conv): exact under substitute_invalid and on well-formed input, unicode_error under check_validity '
             'on malformed input; under assume_valid on malformed input only the safety clauses (size = units held, terminator, '
             'no fault). non-trivial = non-empty input; distinct = distinct case line')
@@ -29,7 +30,10 @@ class C03(UtfCheck):
         'those passes are covered by the model theorems and by result comparison only',
         'inputs of 2^28 units or more (HUGE assertion) are outside the property and not run',
     )
-    partial = ''
+    partial = ('size_term holds by construction in the model (a result IS the list of units; the terminator cell is written by '
+               'ST::buffer::allocate, C05) and is observed on the implementation by the harness (size=, term=). passes_agree for the '
+               'Latin-1 sources is part of total_safe rather than a separate statement. Inputs of 2^28 units or more abort by the '
+               'documented HUGE assertion (beyond_the_bound) and are outside the property.')
 
     def gen(self, rng, tier):
         quick = tier == 'quick'
@@ -102,6 +106,23 @@ class C03(UtfCheck):
                     for fn in STR_TO_FNS:
                         for sub in subs_for(fn):
                             yield case(fn, routes_for(fn)[i % len(routes_for(fn))], '_', sub, u)
+        # ---- block-wise shapes (word-at-a-time rewrites): a malformed unit, and a well-formed wide character, at every
+        #      offset of 40 units of ASCII; forms ending exactly at / one unit past a block boundary; whole blocks
+        for kind in ('8', '16', '32'):
+            shaped = block_malformed(kind) + [encode(kind, sc) for sc in block_scalars()]
+            for i, u in enumerate(shaped):
+                allf = FN_BY_SRC[kind]
+                fns = allf if not quick else [allf[(i + j * 2) % len(allf)] for j in range(2)]
+                for fn in fns:
+                    for mode in (MODES if not quick else (MODES[i % 3], 'cv')):
+                        for sub in subs_for(fn)[: 1 if quick else 2]:
+                            yield case(fn, 'ptr', mode, sub, u)
+                if kind == '8' and i % 4 == 0:
+                    for fn in STR_TO_FNS[1:]:
+                        yield case(fn, 'to', '_', '1' if fn == 'str_to_latin_1' else '_', u)
+        for i, b in enumerate(block_latin1()):
+            for fn in FN_BY_SRC['l1']:
+                yield case(fn, 'ptr', '_', '_', b)
         # ---- result sizes around the short-buffer limit, long inputs
         for n in (14, 15, 16, 17, 18, 47, 48, 49, 255, 256, 257):
             for kind in ('8', '16', '32'):
